@@ -77,6 +77,10 @@ func main() {
 		die("usage: gotsverif gen|replay|table <prop> [flags]")
 	}
 	cmd, id := os.Args[1], os.Args[2]
+	if cmd == "c05worker" {
+		c05Worker()
+		return
+	}
 	p, ok := props[id]
 	if !ok {
 		die("unknown property %s", id)
